@@ -122,7 +122,9 @@ def long_arg_runs():
 # those predicates somewhere in the code shows only on these.
 UNI_CHARS = ['é', 'É', 'ß', 'α', 'б', '中', '\u0660', '²', '½', '\x0b', '\x0c', '\x1c', '\x1d', '\x1e', '\x1f', '\x85',
              '\xa0', '\u1680', '\u2003', '\u2028', '\u2029', '\u202f', '\u3000', '\u200b', '\u0301', '\ufeff', '\xad',
-             '\ud800', '\udbff', '\udc00', '\udfff', '\U0001f602', '\U0010ffff', '\x01', '\x08', '\x1b', '\x80']
+             '\ud800', '\udbff', '\udc00', '\udfff', '\U0001f602', '\U0010ffff', '\x01', '\x08', '\x1b', '\x80',
+             # boundaries of the encodings / tables an implementation might special-case
+             '\x7e', '\xff', '\u0100', '\u07ff', '\u0800', '\ud7ff', '\ue000', '\uffff', '\U00010000', '\u2060', '\u200d', '\u200e']
 UNI_CONTEXT = ['\\', '\\x', '\\item', '\\item ', '{', '}', '[', ']', '%', '\n', ' ', '$', 'a', '\\begin{a}', '\\end{a}',
                '\\\\', '\\textbf', '\\section', '\\cup', '\\left', '\\begin{itemize}', '\\end{itemize}', '1', '~']
 
@@ -187,3 +189,18 @@ def name_neighbour_docs():
             cases.append((s, (n,)))
             cases.append((s, (n + 'q', 'zz')))
     return cases
+
+
+def codepoint_docs(rng, thorough=False, sample=3000):
+    """One small well-formed document per code point >= 0x80 (all of them `Other` for the category table: plain text
+    wherever they stand): after a letter, directly after a command name, inside an argument, at the end.  Quick: the
+    first 0x2F80 of them, every boundary of an encoding or table an implementation might special-case, and a random
+    sample; thorough: all 1,113,984."""
+    import sys
+    if thorough:
+        cps = range(0x80, sys.maxunicode + 1)
+    else:
+        edge = [0xFF, 0x100, 0x7FF, 0x800, 0xD7FF, 0xD800, 0xDBFF, 0xDC00, 0xDFFF, 0xE000, 0xFEFF, 0xFFFD, 0xFFFE,
+                0xFFFF, 0x10000, 0x1FFFF, 0x20000, 0xE0001, 0x10FFFE, 0x10FFFF]
+        cps = list(range(0x80, 0x3000)) + edge + [rng.randrange(0x3000, sys.maxunicode + 1) for _ in range(sample)]
+    return ['a' + chr(c) + ' \\x' + chr(c) + '{b' + chr(c) + '}' + chr(c) for c in cps]
